@@ -61,6 +61,10 @@ func FixEmptyResponseDescriptions(s *spec.Swagger) {
 // FixEmptyDescs adds "(empty)" as the description for any Response in
 // the given Responses object that doesn't already have one.
 func FixEmptyDescs(rs *spec.Responses) {
+	if rs == nil {
+		return
+	}
+
 	FixEmptyDesc(rs.Default)
 	for k, v := range rs.StatusCodeResponses {
 		FixEmptyDesc(&v) //#nosec
